@@ -59,6 +59,9 @@ func transform(f *os.File, opts signers.SignOpts) (signers.Transformer, error) {
 	if err != nil {
 		return nil, err
 	}
+	if err := authenticode.CheckMSISignatureNames(cdf); err != nil {
+		return nil, err
+	}
 	var exsig []byte
 	noExtended := opts.Flags.GetBool("no-extended-sig")
 	if !noExtended {
